@@ -1,6 +1,7 @@
 package main
 
 import (
+	"regexp"
 	"fmt"
 	"go/ast"
 	"go/token"
@@ -65,6 +66,27 @@ func (e *Engine) verifyFunction(fn *ssa.Function, con *Contract) *FuncResult {
 		fc.checkAnchors(con)
 	}()
 	res.Obligations = fc.obs
+	if con != nil && len(con.Extra["thin"]) > 0 {
+		// thin contract: only obligations of the named kinds are claimed for this function; the rest
+		// of its body (callee preconditions that need the full functional model, safety of unrelated
+		// code) is not under contract and is reported as such
+		re, err := regexp.Compile(strings.TrimSpace(con.Extra["thin"][0].Text))
+		if err != nil {
+			fc.errorf("%s: bad thin pattern: %v", con.Extra["thin"][0].Pos, err)
+		} else {
+			var keep []*Obligation
+			dropped := 0
+			for _, ob := range fc.obs {
+				if re.MatchString(ob.Kind) || strings.HasPrefix(ob.Kind, "cover") {
+					keep = append(keep, ob)
+				} else {
+					dropped++
+				}
+			}
+			res.Obligations = keep
+			fc.note("THIN CONTRACT: only obligations of kinds /%s/ are claimed for this function; %d other obligations of its body were generated and NOT checked", re.String(), dropped)
+		}
+	}
 	for l := range fc.usedLemmas {
 		res.UsedLemmas = append(res.UsedLemmas, l)
 	}
